@@ -501,6 +501,8 @@ type found struct {
 	count   int
 }
 
+var outDir = verifDir
+
 func check(args []string) int {
 	t0 := time.Now()
 	if len(args) < 1 {
@@ -531,6 +533,11 @@ func check(args []string) int {
 		case "--scale":
 			i++
 			scale, _ = strconv.ParseFloat(args[i], 64)
+		case "--out":
+			// write evidence and replays under this directory instead of /verif
+			// (used when a check is run against a deliberately broken tree)
+			i++
+			outDir = args[i]
 		}
 	}
 	plan, ok := plans[prop]
@@ -732,7 +739,7 @@ func check(args []string) int {
 
 	exit := 0
 	var violLines, knownLines []string
-	os.MkdirAll(filepath.Join(verifDir, "replays"), 0o755)
+	os.MkdirAll(filepath.Join(outDir, "replays"), 0o755)
 	for _, k := range order {
 		f := founds[k]
 		rf := &ReplayFile{Property: prop, Scenario: f.pe.Scenario, Mode: f.pe.Mode, Seed: f.seed, Run: f.run, Choices: f.choices, LogHash: f.hash, Tree: treeID(), Log: f.log}
@@ -784,7 +791,7 @@ func check(args []string) int {
 			harnessErrs = append(harnessErrs, fmt.Sprintf("violation %s (%s/%s seed=%d run=%d) did not reproduce in a fresh process: %s", f.class, f.pe.Scenario, f.pe.Mode, f.seed, f.run, f.detail))
 			continue
 		}
-		path := filepath.Join(verifDir, "replays", fmt.Sprintf("%s-%s-%s-%d-%d.json", prop, f.pe.Scenario, f.pe.Mode, f.seed, f.run))
+		path := filepath.Join(outDir, "replays", fmt.Sprintf("%s-%s-%s-%d-%d.json", prop, f.pe.Scenario, f.pe.Mode, f.seed, f.run))
 		if len(rf.Choices) > 0 {
 			full := *rf
 			fb, _ := json.MarshalIndent(full, "", " ")
@@ -863,9 +870,9 @@ func check(args []string) int {
 			"the rewriter's syntactic patterns cover every lock site of the instrumented packages (audited on every build: lock_sites == rewritten)",
 		},
 	}
-	os.MkdirAll(filepath.Join(verifDir, "evidence"), 0o755)
+	os.MkdirAll(filepath.Join(outDir, "evidence"), 0o755)
 	eb, _ := json.MarshalIndent(ev, "", " ")
-	if err := os.WriteFile(filepath.Join(verifDir, "evidence", prop+".json"), eb, 0o644); err != nil {
+	if err := os.WriteFile(filepath.Join(outDir, "evidence", prop+".json"), eb, 0o644); err != nil {
 		fatal2("write evidence: %v", err)
 	}
 	fmt.Printf("property=%s tier=%s seed=%d runs=%d crashes=%d distinct_nontrivial=%d states=%d sim_s=%.0f build_s=%.1f wall_s=%.1f determinism=%v\n",
